@@ -256,6 +256,7 @@ type lab struct {
 	lines   map[string][]string // path -> lines currently in that database (for in-place updates)
 	// viaControl, when set, is the control directory: successful kinds of reload are requested through control files
 	viaControl string
+	firstPath  string // the path loaded at start (target of the full-back-ok kind)
 }
 
 func newLab(b harness.Backend, opt harness.ServerOpts, firstGen int) (*lab, error) {
@@ -271,6 +272,7 @@ func newLab(b harness.Backend, opt harness.ServerOpts, firstGen int) (*lab, erro
 		return nil, err
 	}
 	l.srv, l.path, l.gen = srv, p, g
+	l.firstPath = p
 	return l, nil
 }
 
@@ -383,6 +385,22 @@ func (l *lab) reload(kind string) (ok bool, target int, err error) {
 				l.path = p
 			}
 		}()
+	case "full-back-ok":
+		// switch back to the path served first (brought up to a new generation while it was not being served)
+		if l.path == l.firstPath {
+			return l.reload("full-ok")
+		}
+		target = l.newGen()
+		if e := l.updateInPlace(l.firstPath, target); e != nil {
+			return false, target, e
+		}
+		p := l.firstPath
+		sig = *dnsserver.NewFullReloadSignal(p)
+		defer func() {
+			if ok {
+				l.path = p
+			}
+		}()
 	case "partial-ok":
 		target = l.newGen()
 		if e := l.updateInPlace(l.path, target); e != nil {
@@ -415,7 +433,7 @@ func (l *lab) reload(kind string) (ok bool, target int, err error) {
 	}
 	call := l.hist.now()
 	var rerr error
-	if l.viaControl != "" && (kind == "full-ok" || kind == "partial-ok") {
+	if l.viaControl != "" && (kind == "full-ok" || kind == "partial-ok" || kind == "full-back-ok") {
 		rerr = l.signalByControlFile(sig)
 	} else {
 		rerr = l.srv.H.Reload(sig)
